@@ -77,6 +77,37 @@ class DefaultEvaluatorStep(PlanStep):
         """
         config = EnOptConfig.model_validate(config, context=transforms)
 
+        exit_code = OptimizerExitCode.EVALUATION_STEP_FINISHED
+        try:
+            exit_code = self._run(config, transforms, variables, metadata)
+        except OptimizationAborted as exc:
+            exit_code = exc.exit_code
+
+        if exit_code == OptimizerExitCode.USER_ABORT:
+            self.plan.abort()
+
+        try:
+            self.emit_event(
+                Event(
+                    event_type=EventType.FINISHED_EVALUATOR_STEP,
+                    config=config,
+                    source=self.id,
+                )
+            )
+        except OptimizationAborted as exc:
+            exit_code = exc.exit_code
+            if exit_code == OptimizerExitCode.USER_ABORT:
+                self.plan.abort()
+
+        return exit_code
+
+    def _run(
+        self,
+        config: EnOptConfig,
+        transforms: OptModelTransforms | None,
+        variables: ArrayLike | None,
+        metadata: dict[str, Any] | None,
+    ) -> OptimizerExitCode:
         self.emit_event(
             Event(
                 event_type=EventType.START_EVALUATOR_STEP,
@@ -105,16 +136,16 @@ class DefaultEvaluatorStep(PlanStep):
                 source=self.id,
             )
         )
-        try:
-            results = ensemble_evaluator.calculate(
-                variables, compute_functions=True, compute_gradients=False
-            )
-        except OptimizationAborted as exc:
-            exit_code = exc.exit_code
+
+        # If the evaluation is aborted there are no results to report, the
+        # exception is handled by the caller:
+        results = ensemble_evaluator.calculate(
+            variables, compute_functions=True, compute_gradients=False
+        )
 
         assert results
-        assert isinstance(results[0], FunctionResults)
-        if results[0].functions is None:
+        assert all(isinstance(item, FunctionResults) for item in results)
+        if any(item.functions is None for item in results):  # type: ignore[attr-defined]
             exit_code = OptimizerExitCode.TOO_FEW_REALIZATIONS
 
         if metadata is not None:
@@ -136,17 +167,6 @@ class DefaultEvaluatorStep(PlanStep):
                 config=config,
                 source=self.id,
                 data=data,
-            )
-        )
-
-        if exit_code == OptimizerExitCode.USER_ABORT:
-            self.plan.abort()
-
-        self.emit_event(
-            Event(
-                event_type=EventType.FINISHED_EVALUATOR_STEP,
-                config=config,
-                source=self.id,
             )
         )
 
